@@ -29,6 +29,7 @@ _pest = None
 
 def _init():
     global _pest  # noqa: PLW0603
+    C.die_with_parent()
     _pest = C.import_pest()
 
 
